@@ -552,6 +552,11 @@ where
     T: Sample<Type = T> + Copy + std::fmt::Debug + Type,
 {
     fn work(&mut self) -> Result<BlockRet> {
+        if self.repeat.done() || self.range.1 == 0 {
+            // Repeat zero times means not even once; and an empty recording
+            // has nothing to emit however often it is repeated.
+            return Ok(BlockRet::EOF);
+        }
         if self.left == 0 {
             if self.repeat.again() {
                 self.file.seek(std::io::SeekFrom::Start(self.range.0))?;
